@@ -70,10 +70,10 @@ def pick_pair(rng, m, cfg):
         u, v = rng.choice(keys)
     else:
         u = rng.choice(nodes)
-        if rng.random() < cfg['p_selfloop']:
+        if rng.random() < cfg['p_selfloop'] or len(nodes) < 2:
             v = u
         else:
-            v = rng.choice(nodes)
+            v = rng.choice([n for n in nodes if n != u])     # self-loops only when asked for
         if m.directed and keys and rng.random() < 0.3:
             a, b = rng.choice(keys)
             u, v = b, a                      # reciprocal of an existing directed pair
